@@ -142,7 +142,7 @@ class ProgGen(object):
             rows = []
             for ri in range(nrows):
                 v = "%sv%d" % (name.lower(), self.ids.next())
-                tagv = r.choice(o["tags"])
+                tagv = r.choice(o.get("tag_values") or o["tags"])
                 rows.append([v, tagv])
                 values.append(v)
             header = ["x", "t"]
@@ -156,7 +156,7 @@ class ProgGen(object):
             # sections may stay header-only
             e = r.choice(examples)
             v = "%sv%d" % (name.lower(), self.ids.next())
-            tagv = r.choice(o["tags"])
+            tagv = r.choice(o.get("tag_values") or o["tags"])
             e["rows"].append([v, tagv] if e["header"] == ["x", "t"] else [tagv, v])
             values.append(v)
         extra = []
